@@ -37,7 +37,18 @@ def run_check(pid, tier, root, seed=0, quiet=False):
         mod.run(ctx)
         if tier == "thorough" and hasattr(mod, "run_thorough"):
             mod.run_thorough(ctx)
+        st_code = 0
+        if tier == "thorough" and not quiet:
+            from . import selftest
+            st_code = selftest.run([pid], jobs=16, root=root)
+            ctx.r.extra["selftest"] = selftest.run.last
+            ctx.r.rule("SELFTEST", "two-way validation of this property's "
+                       "rules on scratch-copy variants: every seeded "
+                       "single-instance break must fire the named rule, "
+                       "every behaviour-preserving edit must stay silent")
         code = ctx.r.finish()
+        if st_code:
+            return 2, ctx.r
         return code, ctx.r
     except AnalysisError as e:
         if not quiet:
@@ -75,9 +86,6 @@ def main(argv=None):
 
     if args.cmd == "check":
         code, _ = run_check(args.pid.upper(), args.tier, args.root, seed)
-        if code == 0 and args.tier == "thorough":
-            from . import selftest
-            code = selftest.run([args.pid.upper()], jobs=16, root=args.root)
         return code
     if args.cmd == "all":
         worst = 0
